@@ -580,3 +580,41 @@ Proof.
     rewrite U, CK.
     destruct Kc; subst k; rewrite ?I3, ?I4; simpl; f_equal; apply (kinds_wrap_sent []); auto.
 Qed.
+
+(* ================= errors that already have a library kind ================= *)
+
+Definition keeps (conv : Z) (e : berr) (k : nat) : bool :=
+  match res_kinds (conv_by conv e) with Some [k'] => Nat.eqb k k' | _ => false end.
+
+(* for every converter and every kind it is expected to leave alone: the bare sentinel and library errors built on
+   it (one or two wrappers) keep exactly that kind WHATEVER their texts m, m' are (m, m' stay symbolic: the
+   computation never looks at them, i.e. a pass-through rule fires before any text rule) *)
+Lemma kind_preserved_l m m' :
+  forallb (fun conv => forallb (fun k =>
+     keeps conv (BK k) k && keeps conv (BWrap m (BK k)) k && keeps conv (BWrap m' (BWrap m (BK k))) k)
+     (expected_pass conv)) [0; 1; 2; 3] = true.
+Proof. vm_compute. reflexivity. Qed.
+
+Lemma keeps_eq conv e k : keeps conv e k = true -> res_kinds (conv_by conv e) = Some [k].
+Proof.
+  unfold keeps. destruct (res_kinds (conv_by conv e)) as [[|k' [|? ?]]|]; try discriminate.
+  intro H. apply Nat.eqb_eq in H. subst. reflexivity.
+Qed.
+
+Lemma kind_preserved_for_library_errors_l conv k m m' : In conv [0; 1; 2; 3] -> In k (expected_pass conv) ->
+  res_kinds (conv_by conv (BK k)) = Some [k] /\
+  res_kinds (conv_by conv (BWrap m (BK k))) = Some [k] /\
+  res_kinds (conv_by conv (BWrap m' (BWrap m (BK k)))) = Some [k].
+Proof.
+  intros Ic Ik. pose proof (kind_preserved_l m m') as H. rewrite forallb_forall in H. specialize (H conv Ic).
+  rewrite forallb_forall in H. specialize (H k Ik).
+  apply andb_true_iff in H. destruct H as [H H3]. apply andb_true_iff in H. destruct H as [H1 H2].
+  repeat split; apply keeps_eq; auto.
+Qed.
+
+(* without the restriction to the expected kinds the statement is false of the code as it is: platform.ConvertError
+   re-reads an "invalid" error whose message says "not supported" as unsupported *)
+Lemma kind_preservation_unrestricted_false_l :
+  exists k m, (k < nkinds)%nat /\ res_kinds (conv_platform (b_new k m)) <> Some [k] /\
+              res_kinds (conv_fs (b_new k m)) <> Some [k].
+Proof. exists ErrInvalid, (s2b "links are not supported here"). vm_compute. repeat split; try lia; discriminate. Qed.
